@@ -634,8 +634,20 @@ def encode(case):
         return [[[], [], [], [], [], []], 8, [], [], []]
 
 
+def encode_with(case, res):
+    """The model's input is computed by impl() from the SAME objects it observed (one build per case, in
+    the worker): building twice re-runs time-limited searches, which under load could end differently in
+    the two runs (one spurious model/implementation mismatch in 7500 cases was seen that way)."""
+    if isinstance(res, dict) and res.get("enc") is not None:
+        return res["enc"]
+    return encode(case)
+
+
 def _encode(case):
-    b = build(case)
+    return _encode_from(build(case))
+
+
+def _encode_from(b):
     if b["x"] is None:
         return [[[], [], [], [], [], []], 9, [], [], []]
     ctx = Ctx()
@@ -859,7 +871,17 @@ def impl(case):
     b = build(case)
     kind, x, y, J = b["kind"], b["x"], b["y"], b["J"]
     if x is None:
-        return {"out": [], "tags": ["no-object"], "obs": None}
+        return {"out": [], "tags": ["no-object"], "obs": None, "enc": [[[], [], [], [], [], []], 9, [], [], []]}
+    res = _impl_from(b, case)
+    try:
+        res["enc"] = _encode_from(b)
+    except Exception:  # pylint: disable=broad-except
+        res["enc"] = [[[], [], [], [], [], []], 8, [], [], []]
+    return res
+
+
+def _impl_from(b, case):
+    kind, x, y, J = b["kind"], b["x"], b["y"], b["J"]
     out = [conv(jcopy(x.to_jsonable()))]
     obs = {"must_raise": b["must_raise"], "mutated": b["mutated"], "raised": None}
     z = None
